@@ -249,6 +249,34 @@ def op_slice_getitem(rng, chinfo, dtype):
     return Case('getitem(slices/masks)', [a], r, d, _labels(rk), a.qtotal.copy())
 
 
+def op_setitem_slices(rng, chinfo, dtype):
+    """a[slices/masks] = b  with an npc Array b that may lack blocks stored in a[slices/masks] (and vice versa)"""
+    rk = rng.integers(1, 4)
+    a = gen.random_array(rng, _legs(rng, chinfo, rk), dtype, labels=_labels(rk), drop_blocks=0.2, zero_blocks=0.)
+    idx = []
+    for s_ in a.shape:
+        kind = rng.integers(0, 3)
+        if kind == 0:
+            idx.append(slice(None))
+        elif kind == 1:
+            lo = int(rng.integers(0, s_))
+            hi = int(rng.integers(lo + 1, s_ + 1))
+            idx.append(slice(lo, hi))
+        else:
+            m = rng.random(s_) < 0.7
+            if not m.any():
+                m[0] = True
+            idx.append(m)
+    part = a[tuple(idx)]
+    b = gen.random_array(rng, part.legs, dtype, qtotal=part.qtotal, labels=_labels(rk), drop_blocks=0.5, zero_blocks=0.)
+    r = a.copy(deep=True)
+    r[tuple(idx)] = b
+    exp = a.to_ndarray().copy()
+    sel = [np.arange(n)[ix] for n, ix in zip(a.shape, idx)]
+    exp[np.ix_(*sel)] = b.to_ndarray()
+    return Case('setitem(slices/masks)=Array', [a, b], r, exp, _labels(rk), a.qtotal.copy())
+
+
 def op_concatenate(rng, chinfo, dtype):
     import tenpy.linalg.np_conserved as npc
     rk = rng.integers(1, 4)
@@ -330,7 +358,7 @@ def op_binary_scalar(rng, chinfo, dtype):
 
 
 OPS = [op_tensordot, op_outer, op_inner, op_trace, op_transpose, op_conj, op_lincomb, op_combine_split, op_take_slice,
-       op_getitem, op_getitem_oob, op_setitem, op_slice_getitem, op_concatenate, op_scale_axis, op_permute,
+       op_getitem, op_getitem_oob, op_setitem, op_slice_getitem, op_setitem_slices, op_concatenate, op_scale_axis, op_permute,
        op_sort_legcharge, op_squeeze_addleg, op_norm, op_binary_scalar]
 
 
